@@ -55,9 +55,9 @@ ASSUMPTIONS = ['lower/upper bounds of estimate_subset_sum go through libm (sqrt/
                'constructor, not as bytes; the byte layout is exercised by the harness round trips only',
                '"at most the smallest effective k items" is read as: result k <= the union\'s max_k and at most k samples; the '
                'library by design returns more samples than the smallest input k (k=4 and k=8 inputs give k=7)',
-               'union results: "get_result always returns" and the heavy-item clause (every input heavier than the result\'s tau '
-               'is kept) are not proved (only compared and evaluated by the oracle); conservation of n and weight, k <= max_k, '
-               'samples from the input and exact H weights are proved for whatever get_result returns']
+               'union results: totality of get_result, conservation, k <= max_k, samples from the input, exact H weights and the '
+               'heavy-item clause are proved over exact rationals only; in binary64 get_result can still throw (known finding '
+               'union_result_throws_rounding)']
 
 def d2b(x):
     return struct.unpack('<Q', struct.pack('<d', x))[0]
@@ -454,7 +454,7 @@ FAMILIES = [dict(name='varopt', harness='drv_varopt.cpp', extract='Extract_varop
                  ocaml_flags='-rectypes -thread -package coq-core.kernel -linkpkg', cxx_flags='-ffp-contract=off')]
 
 MANIFEST = dict(
-    level_text=('Theorems (coq/Properties_C16.v, 21 statements, axiom-free, proofs in VarOptProofs/VarOptTheorems/VarOptUnion/VarOptMarks.v) about the '
+    level_text=('Theorems (coq/Properties_C16.v, 25 statements, axiom-free, proofs in VarOptProofs/VarOptTheorems/VarOptUnion/VarOptMarks/VarOptTotal/VarOptHeavy.v) about the '
                 'exact-arithmetic (Q) instance of the executable model of var_opt_sketch / var_opt_union, for EVERY history of updates, '
                 'serialize/deserialize round trips and resets, every k >= 1, every sequence of random draws (arbitrary, also too short) and '
                 'every decoding of the unit-interval draws: h + r = min(n, k) with an empty M region at rest and n = number of accepted '
@@ -470,7 +470,12 @@ MANIFEST = dict(
                 'returns (all three coercers: simple copy, mark-moving, migrate-by-decreasing-k incl. decrease_k_by_1) has exactly the '
                 'combined n and total weight, k <= max_k, at most k samples, empty M region, every sample item is an input item and '
                 'every H sample is an input (item, weight) pair with its exact weight (num_marks_in_h_ proved to count the marked H '
-                'slots through every operation). Regression_varopt.v keeps '
+                'slots through every operation). get_result is TOTAL: for every union history it returns (the consistency check of the '
+                'mark-moving coercer holds, decrease_k_by_1 is never asked to go below k = 1, the migrate loop terminates), so these '
+                'conclusions hold unconditionally; the result\'s tau is at least the tau of every estimation-mode input sketch, and every '
+                'input heavier than the result\'s tau is in the result\'s H region with its exact weight (all three coercers; slot-level '
+                '"kept or no heavier than tau" invariant through update, round trip and get_result). The sketch lifecycle update* / '
+                'deserialize / update* is covered explicitly (tau monotone across the round trip, heavy items kept). Regression_varopt.v keeps '
                 'the three repaired model-level defects as refuted theorems about the old code. The binary64 instance of the same model text is extracted '
                 'and compared bit for bit with the C++ (ASan/UBSan build, all random draws replayed through the hook) on generated scripts; '
                 'the property predicates (counts, conservation, heavy items kept exactly, samples from the input, subset-sum total, '
@@ -479,9 +484,7 @@ MANIFEST = dict(
                 'binary64 agreement of Coq PrimFloat/OCaml with g++ -ffp-contract=off. Theorems are over exact rationals, not binary64: in '
                 'binary64 update()/union update()/get_result() can throw std::logic_error when rounding leaves the lightest H item one ulp '
                 'below tau (known findings update_throws_in_estimation_mode, union_update_throws_rounding, union_result_throws_rounding; '
-                'Regression_varopt.v shows such a history passing in exact arithmetic). Not proved: that get_result always returns '
-                '(conservation etc. are proved for whatever it returns), the heavy-item clause for union results (inputs heavier than the '
-                'result\'s tau are kept; oracle only), unbiasedness (statistical, not claimed), lower/upper bounds '
+                'Regression_varopt.v shows such a history passing in exact arithmetic). Not proved: unbiasedness (statistical, not claimed), lower/upper bounds '
                 '(libm; only lb <= estimate <= ub checked on the implementation). "At most the smallest effective k items" is proved and '
                 'checked as k <= max_k and samples <= k: by design the library can return more samples than the smallest input k (inputs '
                 'k=4 and k=8 give k=7). Serialization is modelled as validity checks + constructor arguments, not bytes. Observations '
